@@ -409,7 +409,7 @@ def single_edit_cases(scheme, seed):
 def run_shard(spec, seed, tier):
     res = ShardResult()
     if spec["kind"] == "hyp":
-        n = 300 if tier == "quick" else 6000
+        n = 300 if tier == "quick" else 3000
         if spec["scheme"] == "CGKO06.SSE2":
             n //= 2
         hyp.search(res, st_case(spec["scheme"]), body, seed, n)
